@@ -84,6 +84,9 @@ class Model:
         cmd, data = r
         if cmd == 1:
             op, eid = data[0], data[1]
+            if op in (0, 1) and eid in (0x00, 0xFF):
+                # outside the 0x01-0xFE quantifier of C12/C13: adopt what the context reports
+                return ("resync",)
             if op in (0, 1):
                 self.req = eid
                 self.resp = eid
@@ -145,6 +148,8 @@ def check_model_trace(prop, events):
             m.resp = int(ev["in"], 16)
         elif op == "U":
             m.uuid = bytes.fromhex(ev["in"])
+        if exp and exp[0] == "resync":
+            m.req, m.resp = ev["er"], ev["es"]
         found = []
         exp_cmd = exp[1] if exp and exp[0] == "respond" else None
         stats["eid_checks"] += 1
